@@ -40,6 +40,50 @@ pub fn scenarios(quick: bool) -> Vec<Scenario> {
                 Entry::file("dst/d/n", "old nested").mtime(1_200_000_003, 4),
             ]);
             v.push(Scenario::new(&format!("C04-reflinked-{}-w{}", d, w), tree_src(), &["-r", "--fsync", "--driver", d, "-w", &ws, "--block-size", "4096", "src", "dst"]));
+            // one scenario per option family: each brings system calls of its own
+            let links = vec![
+                Entry::dir("outside"),
+                Entry::file("outside/o", "outside content"),
+                Entry::dir("src"),
+                Entry::file("src/t", "target").mtime(1_300_000_000, 1),
+                Entry::dir("src/rd"),
+                Entry::file("src/rd/x", "x in rd").mtime(1_300_000_001, 2),
+                Entry::link("src/lf", "t"),
+                Entry::link("src/ld", "rd"),
+                Entry::link("src/lo", "../outside/o"),
+                Entry::link("src/c0", "c1"),
+                Entry::link("src/c1", "t"),
+            ];
+            v.push(Scenario::new(&format!("C04-deref-{}-w{}", d, w), links, &["-r", "-L", "--driver", d, "-w", &ws, "src", "dst"]));
+            let gi = vec![
+                Entry::dir("src"),
+                Entry::file("src/.gitignore", "d/\x0a*.txt\x0a!keep.txt\x0a"),
+                Entry::file("src/a", "a"),
+                Entry::file("src/a.txt", "ignored"),
+                Entry::file("src/keep.txt", "kept"),
+                Entry::dir("src/d"),
+                Entry::file("src/d/x", "ignored with its directory"),
+                Entry::dir("src/e"),
+                Entry::file("src/e/y.txt", "ignored"),
+                Entry::file("src/e/z", "kept"),
+            ];
+            v.push(Scenario::new(&format!("C04-gitignore-{}-w{}", d, w), gi, &["-r", "--gitignore", "--driver", d, "-w", &ws, "src", "dst"]));
+            let gl = vec![Entry::file("s1", "one"), Entry::file("s2", "two"), Entry::dir("sd"), Entry::file("sd/in", "inside"), Entry::file("other", "not selected"), Entry::dir("dst")];
+            v.push(Scenario::new(&format!("C04-glob-{}-w{}", d, w), gl, &["-r", "-g", "--driver", d, "-w", &ws, "s?", "sd*", "dst"]));
+            let mut nc = tree_src();
+            nc.push(Entry::dir("dst"));
+            nc.push(Entry::file("dst/unrelated", "bystander").mtime(1_200_000_000, 1));
+            v.push(Scenario::new(&format!("C04-noclobber-{}-w{}", d, w), nc, &["-r", "-n", "--no-perms", "--driver", d, "-w", &ws, "--block-size", "4096", "src", "dst"]));
+            let mut ow = tree_src();
+            for e in ow.iter_mut() {
+                if e.content().is_some() {
+                    e.owner = Some((1000, 4242));
+                }
+            }
+            ow.push(Entry::dir("dst"));
+            ow.push(Entry::file("dst/big", "older").mtime(1_200_000_000, 1));
+            ow.push(Entry::file("dst/big.~7~", "oldest").mtime(1_100_000_000, 1));
+            v.push(Scenario::new(&format!("C04-ownership-auto-backup-{}-w{}", d, w), ow, &["-r", "-T", "--ownership", "--no-timestamps", "--backup", "auto", "--driver", d, "-w", &ws, "--block-size", "4096", "src", "dst"]));
             v.push(Scenario::new(&format!("C04-populated-{}-w{}", d, w), t, &["-r", "-T", "--fsync", "--backup", "numbered", "--driver", d, "-w", &ws, "--block-size", "4096", "src", "dst"]));
         }
     }
@@ -81,7 +125,14 @@ pub fn errnos_for(e: &Ev) -> Vec<i32> {
 }
 
 pub fn judge(w: &Worker, scen: &Scenario, ex: &Exec) -> Judgement {
-    let exp = model::expect(scen);
+    let exp = if scen.args.iter().any(|a| a == "--gitignore") {
+        match c17::git_ignored(w, scen) {
+            Ok(ig) => model::expect_cfg(scen, &model::ModelCfg { git_ignored: Some(&ig) }),
+            Err(e) => return Judgement { violations: vec![], outcome_key: format!("ORACLE-ERROR {}", e), nontrivial: false },
+        }
+    } else {
+        model::expect(scen)
+    };
     let mut v = vec![];
     let hit = !ex.res.hit_sites.is_empty();
     if exit0(ex) {
@@ -90,6 +141,10 @@ pub fn judge(w: &Worker, scen: &Scenario, ex: &Exec) -> Judgement {
             v.push(format!("exit 0 although the requested fsync failed ({})", failed));
         }
         for m in judge_exit0_tree(w, scen, ex, &exp, Level::Meta) {
+            // a failure while copying ownership is documented as a warning and tolerated by the property
+            if hit && m.starts_with("exit 0 but owner of") {
+                continue;
+            }
             v.push(if hit { format!("{} [after injected failure of {}]", m, failed) } else { m });
         }
     }
